@@ -13,6 +13,7 @@ import Proofs.Vector
 import Coma.Corr
 import Proofs.Peaks
 import Proofs.TranslateSec
+import Proofs.TranslateSeed
 namespace Coma.Props
 open Coma Coma.Spec
 
@@ -151,5 +152,15 @@ theorem C16_secondary_translation_zero_end_counterexample :
     ¬ ∀ (c : SecCfg) (ref q : OMap) (rev : Bool) (peak d : Int),
       refine c (Coma.Proofs.shiftRef d ref) q rev (peak + d) = (refine c ref q rev peak).map (List.map fun p => (p.1 + d, p.2)) :=
   Coma.Proofs.refine_shift_false
+
+/-- … and so does the whole derivation of a seed (`deriveSeed`: reference lookup, refinement, the top-ten bookkeeping
+    with its `derived / reordered / ambiguous / MISMATCH` status): the translated reference and primary peak give the
+    translated seed with the same status.  With `C04_translation_invariant` the whole pipeline AFTER the selection of the
+    primary peaks is translation-equivariant. -/
+theorem C16_seed_translation (c : SecCfg) (r q : OMap) (s : PSeed) (d : Int) (hid : r.id = s.refId)
+    (h0 : 0 < s.primary + q.length + c.margin) (hd : 0 < s.primary + d + q.length + c.margin) :
+    deriveSeed c [Coma.Proofs.shiftRef d r] q (Coma.Proofs.shiftPSeed d s)
+      = (deriveSeed c [r] q s).map (fun p => (Coma.Proofs.shiftSeed d p.1, p.2)) :=
+  Coma.Proofs.deriveSeed_shift c r q s d hid h0 hd
 
 end Coma.Props
